@@ -30,6 +30,14 @@ CHECKS = {
             "Decides that each method of the map type is the direct wrapper of the Go map operation it documents (exact effect set, value returned is the value read, len-based size), that constructors copy entry by entry into a map made in the call (every entry stored, so the last wins), and that views are built from the ranged entry. Equivalence over histories then rests on the language's map semantics.",
             "go/types, go/ssa, go/cfg of x/tools v0.29.0; Go map semantics",
             "DESIGN.md 5/C14"),
+    "C15": ("static analysis: abstract interpretation of the set class functions over 4-bit membership truth tables with composed sibling summaries (ALG), SSA freshness (FLOW), purity and collator-provenance scans",
+            "Decides that And/Or/Sans/Xor compute intersection/union/difference/symmetric difference at the level of abstract membership for a generic element, however they are expressed through the supported vocabulary; that operands are not mutated, results are fresh, and the result uses an operand's collator. Ordering/duplicate-freedom of the result is C02.",
+            "go/types, go/ssa of x/tools v0.29.0; the interpreter's vocabulary in checker/c15.go (anything else is UNDECIDED)",
+            "DESIGN.md 5/C15"),
+    "C16": ("static analysis: shape interpretation of Concatenate/Merge/Extract (segment order, copy-then-override, presence-guarded store) with a dependence closure over the syntax tree (ALG/PATH), SSA freshness (FLOW)",
+            "Decides the three documented laws at the level of which operand's items are visited in which order and what is stored under which guard, purity and freshness. That SetValue/AppendValues themselves behave is C03/C01.",
+            "go/types, go/ssa of x/tools v0.29.0",
+            "DESIGN.md 5/C16"),
     "C17": ("static analysis: octagon abstract interpretation of every iterator method against the cursor transition table under the inductive invariant 0<=slot<=size (SYM), SSA freshness summaries for the snapshot (FLOW), type-graph reachability (EFFECT)",
             "Decides the per-method transition relation of the cursor for all integers (slot, size, argument), in-bounds element access, preservation of the invariant, immutability of the snapshot fields, freshness of the array handed to every iterator, and that no iterator is reachable from shared state. Content of the snapshot is not decided.",
             "go/types, go/ssa of x/tools v0.29.0; spec tables in checker/c17.go",
